@@ -229,6 +229,18 @@ async def one(out, env, proto, outcome, host, port, uid, extra=None):
                 return
             # success must not precede the upstream's own establishment
             up_t = env["first_upstream_event"](host, port)
+            if port == env["direct_port"]:
+                # a direct origin: the kernel completes the TCP handshake by itself and the harness only learns of it when its
+                # accept callback runs, which may be after the client already read the reply. That time stamp is an upper bound
+                # of the establishment, so only existence is judged here (the echo below proves the tunnel); the ordering is
+                # judged on the scripted upstreams, whose own "success sent" event is exact.
+                for _ in range(40):
+                    if up_t is not None:
+                        break
+                    await asyncio.sleep(0.05)
+                    up_t = env["first_upstream_event"](host, port)
+                if up_t is not None:
+                    up_t = min(up_t, t_reply)
             if up_t is None or up_t > t_reply:
                 out.violation("client told 'established' before the upstream path was (%s, %s)" % (proto, outcome),
                               {"proto": proto, "outcome": outcome, "reply_at_s": round(t_reply - t0, 3), "upstream_established_at_s": None if up_t is None else round(up_t - t0, 3)})
@@ -334,7 +346,7 @@ async def main(args):
         proto = {R["fh"]: "http", R["fs5"]: "socks5", R["fs4"]: "socks4"}.get(port)
         ts = [t for (t, pr, h, what) in fakes.events if pr == proto and h == host and what == "success-sent"]
         return min(ts) if ts else None
-    env = {"ports": ports, "seed": args.seed, "first_upstream_event": first_upstream_event}
+    env = {"ports": ports, "seed": args.seed, "first_upstream_event": first_upstream_event, "direct_port": R["direct"]}
     try:
         await A.start()
         await C.start()
